@@ -64,6 +64,14 @@ def activation_gradient(a):
     return {'gradient': np.asarray(grad).tolist(), 'fd': fd.tolist(), 'output': np.asarray(act.output(signal)).tolist()}
 
 
+def activation_output(a):
+    """output(signal) alone (no finite differences: the signal may be far outside their range)."""
+    act = get_loss(a['name']) if a['name'] in ('CrossEntropy', 'BinaryCrossEntropy') else get_activation(a['name'])
+    with np.errstate(all='ignore'):
+        out = np.asarray(act.output(np.array(a['signal'], dtype=float)))
+    return {'output': [[(x if np.isfinite(x) else repr(float(x))) for x in row] for row in out.tolist()]}
+
+
 def loss_gradient(a):
     """loss_gradient(signal, labels) and n * finite differences of the implementation's own mean loss."""
     loss = get_loss(a['name'])
